@@ -191,7 +191,24 @@ def Breaker.mark (b : Breaker) (now : Nat) (m : Mark) : Breaker := { b with rw :
 The last two are ordinary unacceptable errors for the breaker: the call was ADMITTED, so the fallback must not
 run and the error must come back unchanged — although it `errors.Is` the breaker's own rejection error. -/
 inductive Outcome | ok | errA | errU | brk | wbrk | panic
+  /-- a typed-nil error: an `error` interface holding a nil pointer.  `err == nil` is FALSE for it, so
+  `defaultAcceptable` (and the harness's custom predicate) count it as a failure and it comes back unchanged. -/
+  | tnil
   deriving Repr, DecidableEq, Inhabited
+
+/-- How a request that does not return leaves `doReq` / the deferred function of a call site.  The decision tables
+below do not depend on it (`Outcome.panic` / `SiteReq.panics` stand for all three): the deferred marker runs in
+every case — Go runs deferred functions when a goroutine panics and when it calls `runtime.Goexit` — and nobody
+on the breaker's path calls `recover`, so a panic value (string or error, e.g. `http.ErrAbortHandler`) reaches the
+caller unchanged and a `Goexit` keeps terminating the goroutine.  The harness observes which of the three came out. -/
+inductive Unwind | panicValue | panicError | goexit
+  deriving Repr, DecidableEq, Inhabited
+
+/-- what the caller of the entry point observes of an unwinding request (`panic=` of the trace) -/
+def Unwind.obs : Unwind → String
+  | .panicValue => "1"
+  | .panicError => "err"
+  | .goexit => "exit"
 
 structure Entry where
   hasFallback : Bool     -- DoWithFallback / DoWithFallbackAcceptable
@@ -201,7 +218,7 @@ structure Entry where
 /-- what the caller gets back: the request's own result (by identity: `brk` is the request's own
 `ErrServiceUnavailable`, as opposed to `unavailable`, the breaker's rejection), the rejection error, the
 fallback's result, or the context's error -/
-inductive Ret | nil | errA | errU | brk | wbrk | unavailable | fallbackResult | ctxErr
+inductive Ret | nil | errA | errU | brk | wbrk | unavailable | fallbackResult | ctxErr | tnil
   deriving Repr, DecidableEq, Inhabited
 
 inductive Ev
@@ -220,6 +237,7 @@ def acceptable (custom : Bool) : Outcome → Bool
   | .brk => false
   | .wbrk => false
   | .panic => false
+  | .tnil => false
 
 def Outcome.ret : Outcome → Ret
   | .ok => .nil
@@ -228,6 +246,7 @@ def Outcome.ret : Outcome → Ret
   | .brk => .brk
   | .wbrk => .wbrk
   | .panic => .nil
+  | .tnil => .tnil
 
 /-- `doReq` (through loggedThrottle.doReq and circuitBreaker.Do*): events in program order. -/
 def doReqEvents (v : Verdict) (e : Entry) (o : Outcome) : List Ev :=
